@@ -9,7 +9,7 @@ import random
 
 import numpy as np
 
-from .. import gen, scripted, session, specgen
+from .. import env, gen, scripted, session, specgen
 
 PROP = 'C07'
 RULE = ('random scripted sessions over trading timeframes 1m..4h with smaller/larger data routes, warm-up on/off, both '
@@ -212,7 +212,8 @@ def run_job(job):
     dts = ['3m', '5m', '15m', '30m', '45m', '1h', '2h'] + (['3h', '4h', '6h'] if big else [])
     minutes = rng.choice([301, 452, 600, 777]) if not big else rng.choice([1501, 2000, 2880])
     spec = specgen.random_session(rng, minutes=minutes, tfs=tfs, data_tfs=dts,
-                                  warmup=rng.choice([0, 0, 240, 720]) if not job.get('warm') else 720)
+                                  warmup=rng.choice([0, 0, 240, 720]) if not job.get('warm') else 720,
+                                  data_only=(job['i'] % 4 == 1))
     if job.get('no_warm'):
         spec['warmup'] = 0
     # lengths not multiples of the timeframe are wanted; warm-up must be aligned (specgen does that)
@@ -236,7 +237,25 @@ def run_job(job):
         scripted.HOOK_MONITORS.append(monitor)
     for r in spec['routes']:
         r['script']['observe'] = 'light'
-    out = session.run_session(spec, candles=allc, keep_events=False, snapshots=False)
+    scratch = None
+    if job.get('logs'):
+        # the session log is switched on (generate_logs turns jesse's debug mode on: candle lines, order lines ... are
+        # written while the simulation runs); log files go to a scratch working directory outside the trees
+        import os
+        import tempfile
+        scratch = tempfile.mkdtemp(prefix='vf-c07-')
+        _prev_cwd = os.getcwd()
+        os.chdir(scratch)
+        spec['options'] = {'generate_logs': True}
+        CTX['cnt']['sessions_with_session_log'] = 1
+    try:
+        out = session.run_session(spec, candles=allc, keep_events=False, snapshots=False)
+    finally:
+        if scratch:
+            import os
+            import shutil
+            os.chdir(env.CACHE + '/cwd' if os.path.isdir(env.CACHE + '/cwd') else env.VERIF)
+            shutil.rmtree(scratch, ignore_errors=True)
     CTX['on'] = False
     cnt = CTX['cnt']
     cnt['sessions'] = 1
@@ -260,7 +279,7 @@ def make_jobs(tier, seed):
     rng = random.Random(70000 + seed)
     n = 260 if tier == 'quick' else 5000
     jobs = [{'kind': 'session', 'seed': rng.randrange(1 << 30), 'i': i, 'big': (i % 10 == 9),
-             'no_warm': (i % 5 == 0)} for i in range(n)]
+             'no_warm': (i % 5 == 0), 'logs': (i % 6 == 2)} for i in range(n)]
     for i in range(4 if tier == 'quick' else 40):
         jobs.append({'kind': 'helpers', 'seed': rng.randrange(1 << 30), 'n': 80})
     return jobs
